@@ -468,7 +468,8 @@ def rule_dispatch_transparent(ctx: Ctx, out: Collector) -> None:
     leaves = []
     for ev in g.events('call'):
         role = ctx.roles.body(ev)
-        if role in ('process', 'executor') and ev.inst.parent is None:
+        # in run_node itself or in a helper it calls directly (the pool submission may be a function of its own)
+        if role in ('process', 'executor') and (ev.inst.parent is None or ev.inst.parent.parent is None):
             leaves.append((ev, role))
     if len(leaves) < 3:
         raise AnalysisError(f'only {len(leaves)} dispatch leaves found in run_node (EX-5 anchors vanished)')
@@ -478,6 +479,7 @@ def rule_dispatch_transparent(ctx: Ctx, out: Collector) -> None:
         if role == 'executor':
             part = None
             for x in c.args:
+                x, _ = sym.resolve_value(ctx.p, x, ev.inst)             # the partial may be bound to a local first
                 if isinstance(x, ast.Call) and (dotted(x.func) or '').endswith('partial'):
                     part = x
             if part is None:
@@ -514,8 +516,17 @@ def rule_dispatch_transparent(ctx: Ctx, out: Collector) -> None:
         stars = [x.value.id for x in c.args if isinstance(x, ast.Starred) and isinstance(x.value, ast.Name)]
         kws = [k.value.id for k in c.keywords if k.arg is None and isinstance(k.value, ast.Name)]
         extra = [x for x in c.args if not isinstance(x, ast.Starred)] + [k for k in c.keywords if k.arg is not None]
-        if stars != [va] or kws != [kw] or extra:
-            problems.append(f'{ev.text(70)}: arguments are not exactly (*{va}, **{kw})')
+        la = ev.inst.unit.node.args
+        lva, lkw = (la.vararg.arg if la.vararg else None), (la.kwarg.arg if la.kwarg else None)
+        if stars != [lva] or kws != [lkw] or extra:
+            problems.append(f'{ev.text(70)}: arguments are not exactly (*{lva}, **{lkw})')
+        elif ev.inst.parent is not None:
+            # the helper itself must have been given exactly run_node's (*args, **kwargs)
+            hc = ev.inst.call
+            hs = [x.value.id for x in hc.args if isinstance(x, ast.Starred) and isinstance(x.value, ast.Name)]
+            hk = [k.value.id for k in hc.keywords if k.arg is None and isinstance(k.value, ast.Name)]
+            if hs != [va] or hk != [kw] or any(k.arg is not None for k in hc.keywords):
+                problems.append(f'{unparse(hc)[:70]}: the helper is not given exactly (*{va}, **{kw})')
     # value returned unchanged: what run_node returns is, on every path, the (awaited) value of a dispatch leaf itself
     from ..engine import resolve_all
     rets = [n for n in FuncEnv.of(ctx.p, unit).own_nodes() if isinstance(n, ast.Return)]
@@ -528,7 +539,25 @@ def rule_dispatch_transparent(ctx: Ctx, out: Collector) -> None:
             v = e.value if isinstance(e, ast.Await) else e
             if isinstance(v, ast.Call) and any(v is ev.node for ev, role in leaves):
                 returned.add(id(v))
-            else:
+                continue
+            # ... or what a helper returns, when that is the (awaited) value of a leaf in the helper
+            via = None
+            if isinstance(v, ast.Call):
+                for cev in g.events('call'):
+                    if cev.node is v and cev.info.get('callee') is not None:
+                        via = cev.info['callee']
+            ok_via = False
+            if via is not None:
+                hrets = [n for n in FuncEnv.of(ctx.p, via.unit).own_nodes() if isinstance(n, ast.Return) and n.value is not None]
+                ok_via = bool(hrets)
+                for hr in hrets:
+                    for e2, i2 in resolve_all(ctx.p, hr.value, via):
+                        v2 = e2.value if isinstance(e2, ast.Await) else e2
+                        if isinstance(v2, ast.Call) and any(v2 is ev.node for ev, role in leaves):
+                            returned.add(id(v2))
+                        else:
+                            ok_via = False
+            if not ok_via:
                 problems.append(f'run_node returns {unparse(e)[:50]}, not the body\'s value')
     if not rets:
         problems.append('run_node never returns the body\'s value')
